@@ -83,7 +83,8 @@ def _load_protocols():
 def stream(ctx, case):
     import logging
     logging.disable(logging.CRITICAL)
-    pool_id, n, supress = case
+    pool_id, n, supress = case[:3]
+    first = case[3] if len(case) > 3 else None
     from core import wl, matcher
     from core.connection_manager import ConnectionManager
     from core.output import Output
@@ -95,7 +96,7 @@ def stream(ctx, case):
     pool = POOL if pool_id == 1 else POOL2
     util.color_output = False
     wl.Message.base_time = None
-    idx = [ctx.choose(list(range(len(pool))), 'line%d' % k) for k in range(n)]
+    idx = [ctx.choose(list(range(len(pool))), 'line%d' % k) if (k > 0 or first is None) else first for k in range(n)]
     # well-formedness in the sense of C02: an id is created once (until deleted) and deleted only while it exists
     alive = set()
     creates = {'get_registry': 2, 'get_registry2': 9, 'sync': 3}
@@ -232,7 +233,11 @@ def obligations(tier):
     cases = []
     for n in range(0, n1 + 1):
         for supress in (False, True):
-            cases.append((1, n, supress))
+            if n >= 3:
+                # the long streams are split by their first line so that they spread over the cores
+                cases += [(1, n, supress, f) for f in range(len(POOL)) if POOL[f][2] != 'delete_id']    # a stream cannot begin with the deletion of an object never created
+            else:
+                cases.append((1, n, supress))
     for n in range(1, (4 if tier == 'quick' else 5) + 1):
         for supress in (False, True):
             cases.append((2, n, supress))
